@@ -24,7 +24,13 @@
 static CH *exact(const CH *src, long n, const char *name){ CH *p = uk_buf((size_t)n * sizeof(CH), name); long i; for (i = 0; i < n; i++) p[i] = src[i]; uk_readonly(p, (size_t)n * sizeof(CH)); return p; }
 int main(void){
   CH tb[CAP], tr[CAP], e1[3 * CAP], t1[3 * CAP], t2[3 * CAP]; CH *bt, *rt; long bn, rn, i; URI B, R1, R2, T1, T2; const CH *ep = 0; int rc, l1 = 0, l2 = 0; CH *g1, *g2; os_split_t rs;
+#ifdef BASE_FIXED
+  /* constant base text (e.g. a deep one); KB only sizes the buffers */
+  { static const char fixed[] = BASE_FIXED; for (bn = 0; fixed[bn]; bn++) tb[bn] = (CH)fixed[bn]; }
+  bt = exact(tb, bn, "base");
+#else
   bn = gen_uri(tb, BFLAGS, KB, SEGL, "b"); bt = exact(tb, bn, "base");
+#endif
   rn = gen_uri(tr, RFLAGS, KR, SEGL, "r"); rt = exact(tr, rn, "ref");
   uk_note_text("base", bt, bn, sizeof(CH)); uk_note_text("ref", rt, rn, sizeof(CH));
   if (U(uriParseSingleUriExMm)(&B, bt, bt + bn, &ep, &mm) != URI_SUCCESS){ uk_assume(0); return 0; }
